@@ -232,6 +232,8 @@ func c17Backend(f *Fixture, c *c17Case) []Discrepancy {
 	if limit == 0 {
 		limit = 6 << 20
 	}
+	pi := indexPlans(&c.Spec)
+	rc := &refCtx{Password: c.Cfg.Password, MaxLen: c.Cfg.MaxLen, Owners: f.Owners}
 	counts := map[string]int{}
 	for _, lr := range f.LastLog {
 		for _, k := range keysOf(lr.Name, lr.Args) {
@@ -250,6 +252,7 @@ func c17Backend(f *Fixture, c *c17Case) []Discrepancy {
 		for _, k := range keysOf(ln, all) {
 			keys = append(keys, k)
 		}
+		earlyError := refmodel.MultiKey(ln) && expectFor(r, pi, rc).AnyError
 		if len(vs) > 0 || refmodel.Local(ln) {
 			// nothing of it may be forwarded: none of its argument tokens may show up at a backend
 			for _, a := range r.Args {
@@ -267,6 +270,11 @@ func c17Backend(f *Fixture, c *c17Case) []Discrepancy {
 					ds = append(ds, disc("C17/rejected-request-forwarded", "request %d (%s) is for a slot nobody serves but its key reached a backend", i+1, q(r.Encode())))
 					return ds
 				}
+				continue
+			}
+			if earlyError && counts[string(k)] <= 1 {
+				// the request is answered as soon as one fragment's reply is refused: a sibling fragment may not
+				// have reached its node yet when the client has its answer (never more than once, though)
 				continue
 			}
 			if counts[string(k)] != 1 {
